@@ -142,7 +142,7 @@ CHECKS["C01"] = dict(
          "250 + 40 configurations, every class of the enumeration represented) is instantiated for all 45 registered planners in R^2, SE(2), R^3, SE(3), a "
          "weighted compound, Reeds-Shepp and Dubins, with four query variants (single, several starts, GoalStates, "
          "non-sampleable region; plus a block of maps whose goal is unreachable, queried with several starts / goal states, for "
-         "every planner that reports approximate solutions) and with the planners' declared parameters swept through the ParamSet, under evaluation "
+         "every planner that reports approximate solutions, and a block that flips every declared on/off parameter alone) and with the planners' declared parameters swept through the ParamSet, under evaluation "
          "budgets, every run in its own process; every solve report carries facts from an "
          "oracle independent of the planner (own validity predicate, dense re-sampling along interpolate, recomputed goal "
          "distance, motion re-check) and is judged by TLC against PlannerContract.tla, which also re-validates each path on "
@@ -158,7 +158,7 @@ CHECKS["C03"] = dict(
          "graph; histories are walks through it plus the k-sweep solve(k); solve(k2) with the termination condition first "
          "firing at every evaluation index k = 0,1,2,..., plus a targeted block for 'clear() forgets the old query' (multi-goal "
          "first query behind a detour, continued solves, clear / new definition, new query where the old far goal was); they "
-         "are executed on all 45 planners (declared parameters swept, short ranges included) over an allocation-counting state space; the "
+         "are executed on all 45 planners (declared parameters swept, short ranges included; for the roadmap planners ClearQuery is also spelled as re-binding the bound definition) over an allocation-counting state space; the "
          "PlannerInputStates cursor and the lazy goal-sampling thread have their own models (InputStates.tla, GoalLazy.tla); "
          "the control planners have a life-cycle add-on; each recorded execution is replayed through the same TLA+ actions and every report is judged by "
          "PlannerLifecycleTrace: status truthful, nothing empty/half-built, path facts of C01 for every added solution, return "
@@ -175,7 +175,8 @@ CHECKS["C04"] = dict(
          "Costs: continued solves (and a re-query after clearQuery) of all 20 optimizing planners under 6 objectives, with "
          "swept parameters, are recorded with independently recomputed "
          "costs and judged by PlannerCostTrace (stored never better than true, equal unless propagation is deferred, true never "
-         "better than the admissible lower bound, optimized iff threshold met, best stored cost never worse, best first).",
+         "better than the admissible lower bound, optimized iff threshold met, best stored cost never worse, best first, the "
+         "planner's published incumbent - progress property 'best cost' - never worse than a cost it has just reported).",
     note="Ranking judged on homogeneous sets only. Cost tolerance 4e-5 abs + 1e-5 rel. Planner runs are sampled (environments, "
          "seeds, budgets, parameters).",
     technique="TLA+ spec of the comparator + TLC; state-graph replay; TLC trace validation of recorded cost reports",
